@@ -144,7 +144,12 @@ func runOnce(sc *Scenario, prefix []int, keepTrace bool) execResult {
 	res := execResult{choices: x.Choices, nAlts: x.nAlts, costs: x.costs, viol: v, outcome: x.Outcome, points: s.Points, horizon: s.HitHorizon, trace: s.Trace}
 	s.End()
 	for _, f := range x.cleanup {
-		f()
+		func() {
+			// a killed thread may have died holding a (shim) lock that a Close wants: releasing
+			// resources is best effort
+			defer func() { recover() }()
+			f()
+		}()
 	}
 	return res
 }
